@@ -1,10 +1,14 @@
 /-
   C02 — Rule text is parsed by the documented grammar, precedence and aliases.
-  Property theorems only; helper lemmas live in ASV/Proofs/Parser*.lean.
+  Property theorems only; helper lemmas live in ASV/Proofs/Parser/*.lean.
+  Model: ASV/Model/Parser.lean (tokeniser, parser, printer, create_rules — of the repaired code,
+  see fixes/D17, D25, D26).  Spec: ASV/Spec/Grammar.lean.
 -/
-import ASV.Spec.Grammar
+import ASV.Proofs.Parser.Main
 namespace ASV.C02
 open ASV ASV.Rules ASV.Parser ASV.Grammar
+
+/-! ### the regenerated tables still say what the model assumes -/
 
 /-- every member named by the regenerated `Tokeniser.mapping` is a token type the model knows -/
 theorem mapping_names_known :
@@ -17,5 +21,81 @@ theorem keyword_table_agrees :
       (TT.ofName p.1).map TT.isRuleKeyword ==
         some (decide ((Generated.RuleTokens.tokenValues.lookup "RULE").getD 0 ≤ p.2) &&
               p.2 != (Generated.RuleTokens.tokenValues.lookup "TEXT").getD 0)) = true := by decide
+
+/-! ### ill-formed input is rejected (thm 6) — stated as: whatever is accepted is well-formed.
+    For every list of rule files (any texts whatsoever), every signature set, category set and
+    multipliers. -/
+
+/-- `create_rules` only ever returns a well-formed rule set: rule names distinct, categories
+    valid, every profile named in a CONDITIONS section a known signature, no condition object
+    with a repeated operand (nor `minimum` with a repeated option or a count of 0), a positive
+    requirement in the conditions and in the extenders, superiors defined earlier and closed. -/
+theorem accepted_rules_wellformed (cfg : Cfg) (files : List String) (rules : List Rule)
+    (h : createRules cfg files [] [] = .ok rules) : rulesOk cfg rules = true :=
+  createRules_ok cfg files [] [] rules h (by simp [rulesOk, namesDistinct, hasDupStr, supClosed, supClosedFrom])
+
+/-- duplicate rule name ⇒ rejected -/
+theorem accepted_names_distinct (cfg : Cfg) (files : List String) (rules : List Rule)
+    (h : createRules cfg files [] [] = .ok rules) : (rules.map (·.name)).Nodup := by
+  have := (rulesOk_iff.mp (accepted_rules_wellformed cfg files rules h)).1
+  simpa [namesDistinct, hasDupStr_false_iff] using this
+
+/-- unknown category, unknown profile, repeated operand, no positive requirement ⇒ rejected -/
+theorem accepted_rule_ok (cfg : Cfg) (files : List String) (rules : List Rule)
+    (h : createRules cfg files [] [] = .ok rules) (r : Rule) (hr : r ∈ rules) :
+    r.category ∈ cfg.cats ∧ (∀ p ∈ r.conditions.profiles, p ∈ cfg.sigs) ∧
+      noRepeat r.conditions = true ∧ positive r.conditions = true := by
+  have := (rulesOk_iff.mp (accepted_rules_wellformed cfg files rules h)).2.2 r hr
+  obtain ⟨⟨h1, h2, h3, _⟩, hp⟩ := ruleOkW_of this
+  exact ⟨by simpa using h1, fun p hpm => by simpa using hp p hpm, h2, h3⟩
+
+/-- thm 5: SUPERIORS are rules defined *earlier* (superior not yet defined ⇒ rejected) and are
+    closed transitively: the superiors of a superior are superiors -/
+theorem superiors_transitive (cfg : Cfg) (files : List String) (rules pre post : List Rule) (r : Rule)
+    (h : createRules cfg files [] [] = .ok rules) (hpos : rules = pre ++ r :: post) :
+    ∀ m ∈ r.superiors, ∃ q, pre.find? (·.name == m) = some q ∧ ∀ x ∈ q.superiors, x ∈ r.superiors := by
+  have hc := (rulesOk_iff.mp (accepted_rules_wellformed cfg files rules h)).2.1
+  have := supOk_of_closedFrom [] rules pre r post hc hpos
+  simpa using supOk_iff.mp this
+
+/-- missing section / unbalanced group / trailing `not` / `cds` of a single identifier / operator
+    without operand ⇒ rejected: the *only* token strings `_parse_conditions` accepts are the
+    flattenings (`flatJoin`) of condition objects of the documented shape (`shapeOks`: groups and
+    cds non-empty, `and`-chains of ≥ 2 atoms, no `minimum`/`cds` inside `cds`, no lone identifier in
+    `cds`), without repeated operands; and it stops where the section may end (`endCheck`). -/
+theorem conditions_accepts_only_grammar (fuel : Nat) (allowCds isGroup : Bool) (s s' : PS) (cs : List Cond)
+    (h : parseConditions fuel allowCds isGroup s = .ok (cs, s')) :
+    ∃ new, s'.consumed = new ++ s.consumed ∧ new.reverse.map Tok.key = flatJoin .orOp cs ∧
+      shapeOks allowCds cs = true ∧ noRepeats cs = true ∧ cs ≠ [] ∧ endCheck isGroup s' = .ok () := by
+  obtain ⟨new, a, k, g, ne, e⟩ := (blockPost fuel).conds _ _ _ _ _ h
+  exact ⟨new, a.consumed, k, g.shape, g.norep, ne, e⟩
+
+/-! ### non-vacuity: each listed class of ill-formed input on a concrete text -/
+
+def exCfg : Cfg := { sigs := ["a", "b", "c"], cats := ["cat"] }
+def exHead (name : String) : String := "RULE " ++ name ++ " CATEGORY cat CUTOFF 20 NEIGHBOURHOOD 5 CONDITIONS "
+def exErr (files : List String) : Option Err :=
+  match createRules exCfg files [] [] with
+  | .error e => some e
+  | .ok _ => none
+
+example : exErr [exHead "r" ++ "a and (b or not c)"] = none := by decide +kernel
+example : exErr [exHead "r" ++ "a and zz"] = some .value := by decide +kernel                      -- unknown profile
+example : exErr ["RULE r CATEGORY nope CUTOFF 1 NEIGHBOURHOOD 1 CONDITIONS a"] = some .syntax := by decide +kernel
+example : exErr [exHead "r" ++ "a", exHead "r" ++ "b"] = some .value := by decide +kernel          -- duplicate rule, second file
+example : exErr ["DEFINE x AS a DEFINE x AS b " ++ exHead "r" ++ "a"] = some .syntax := by decide +kernel  -- duplicate alias
+example : exErr ["DEFINE a AS b " ++ exHead "r" ++ "c"] = some .value := by decide +kernel         -- alias = signature
+example : exErr ["DEFINE x AS a or x " ++ exHead "r" ++ "x"] = some .value := by decide +kernel    -- D25
+example : exErr [exHead "r" ++ "a or (a)"] = some .value := by decide +kernel                      -- repeated operand
+example : exErr [exHead "r" ++ "minimum(2, [a, b, a])"] = some .value := by decide +kernel
+example : exErr ["RULE r CATEGORY cat NEIGHBOURHOOD 5 CONDITIONS a"] = some .syntax := by decide +kernel
+example : exErr [exHead "r" ++ "(a or b"] = some .syntax := by decide +kernel                      -- unbalanced
+example : exErr [exHead "r" ++ "cds(a)"] = some .syntax := by decide +kernel
+example : exErr [exHead "r" ++ "a and not"] = some .syntax := by decide +kernel
+example : exErr [exHead "r" ++ "not a and not (b or c)"] = some .value := by decide +kernel        -- nothing positive
+example : exErr ["RULE r CATEGORY cat SUPERIORS s CUTOFF 1 NEIGHBOURHOOD 1 CONDITIONS a " ++ exHead "s" ++ "b"]
+    = some .value := by decide +kernel                                                              -- superior defined later
+example : exErr [exHead "s" ++ "b", "RULE r CATEGORY cat SUPERIORS s, s CUTOFF 1 NEIGHBOURHOOD 1 CONDITIONS a"]
+    = some .value := by decide +kernel
 
 end ASV.C02
